@@ -1,2 +1,8 @@
 -- Root of the `BindgenModel` library: models, generated tables, lemmas, property theorems.
 import BindgenModel.Model.BitfieldUnit
+import BindgenModel.Model.Depfile
+import BindgenModel.Model.Includes
+import BindgenModel.Model.CDecl
+import BindgenModel.Model.Post
+import BindgenModel.Model.Format
+import BindgenModel.Model.Pipe
